@@ -52,7 +52,11 @@ type Commit struct {
 	Type    string `json:"type,omitempty"` // conventional-commit type of Subject ("" = none)
 	Lane    int    `json:"lane,omitempty"`
 	Merge   bool   `json:"merge,omitempty"`
-	Ops     []Op   `json:"ops,omitempty"`
+	// Squash: a commit on lane 0 with ONE parent and no Ops whose tree is the one a merge of the open side
+	// lane would give (`git merge --squash side && git commit`); the side lane is abandoned afterwards (its
+	// commits stay unreachable). It is an ordinary non-merge commit whose diff is the side lane's net change.
+	Squash bool `json:"squash,omitempty"`
+	Ops    []Op `json:"ops,omitempty"`
 }
 
 // History is the abstract operation list: the ground truth of everything derived from it.
@@ -244,7 +248,9 @@ func (s *state) apply(c Commit) error {
 	idx := len(s.commits)
 	sc := SimCommit{Index: idx, Commit: c}
 	switch {
-	case c.Merge:
+	case c.Merge && c.Squash:
+		return fmt.Errorf("commit %d: both merge and squash", idx)
+	case c.Merge || c.Squash:
 		if !s.sideOpen || c.Lane != 0 || len(c.Ops) > 0 {
 			return fmt.Errorf("commit %d: merge without an open side lane, or with ops", idx)
 		}
@@ -270,6 +276,13 @@ func (s *state) apply(c Commit) error {
 		}
 		sc.Parents = []int{s.tips[0], s.tips[1]}
 		sc.Tree = merged
+		if c.Squash {
+			entries, err := diffTrees(s.lanes[0], merged)
+			if err != nil {
+				return fmt.Errorf("commit %d: %v", idx, err)
+			}
+			sc.Parents, sc.Entries = []int{s.tips[0]}, entries
+		}
 		s.lanes[0], s.tips[0] = merged, idx
 		s.sideOpen, s.lanes[1], s.tips[1], s.fork = false, nil, -1, nil
 	default:
